@@ -973,4 +973,11 @@ def r7(F, R):
     R.floor(14, "routing clauses")
 
 
-RULES = [("R1", r1, None), ("R2", r2, None), ("R3", r3, None), ("R4", r4, None), ("R5", r5, None), ("R6", r6, None), ("R7", r7, None)]
+def r8(F, R):
+    """A cloned Normalize (writers are Clone) carries the same buffered events: Clone of Normalize and of its queue types is field
+    for field (path tables of the Clone impls)."""
+    n = roles.check_clone_faithful_table(F, R, "writer::normalize::", "clone-faithful")
+    R.floor(3, "clone clauses")
+
+
+RULES = [("R1", r1, None), ("R2", r2, None), ("R3", r3, None), ("R4", r4, None), ("R5", r5, None), ("R6", r6, None), ("R7", r7, None), ("R8", r8, None)]
